@@ -45,7 +45,7 @@ def flag_list(fl):
     return b'(' + b' '.join(FLAGS[f] for f in fl) + b')'
 
 
-DATE_ZONES = [b'+0000', b'-0700', b'+0530', b'+1300', b'-1100', b'+0000']
+DATE_ZONES = [b'+0000', b'-0700', b'+0530', b'+1300', b'-1100', b'+0000', b'-0330', b'-0930', b'-0001']
 
 
 def date_str(day):
